@@ -107,3 +107,9 @@ Definition m_ctor (kind : nat) (a b c : Z) : option (list (Z * Z * Z * Z)) :=
 Definition m_trev (v : list (N * N * gz)) : list (N * N * gz) :=
   map (fun x => match x with (a, b, c) =>
          (b, a, gsgn (Nat.odd (popcount b * (popcount a + 1))) (gzconj c)) end) v.
+
+(* C07 *)
+From FQE Require Import Cirq.
+Definition m_export := export.
+Definition m_import := import.
+Definition m_jw_code := jw_code.
